@@ -182,6 +182,13 @@ Theorem C18_booleans_by_value : forall a b, op_eq (JBool a) (JBool b) = Bool.eqb
 Proof. exact bool_eq_by_value. Qed.
 Print Assumptions C18_booleans_by_value.
 
+(* not asked by the property, worth knowing (replayed on the library: 1 1 0): == is not transitive across storages *)
+Theorem C18_equality_is_not_transitive :
+  let a := JInt (2^53 + 1) in let b := JDouble (f_of_Z F64 (2^53)) in let c := JInt (2^53) in
+  op_eq a b = true /\ op_eq b c = true /\ op_eq a c = false.
+Proof. exact eq_not_transitive. Qed.
+Print Assumptions C18_equality_is_not_transitive.
+
 (* the full statement (without wf) is FALSE of the faithful model, with this witness — the known finding *)
 Theorem C18_symmetry_needs_distinct_keys :
   exists a b, op_eq a b <> op_eq b a.
